@@ -10,7 +10,6 @@ import (
 	"github.com/brewlin/net-protocol/pkg/tmutex"
 	"github.com/brewlin/net-protocol/pkg/waiter"
 	"github.com/brewlin/net-protocol/protocol/network/fragmentation"
-	"github.com/brewlin/net-protocol/protocol/ports"
 
 	"verif/engine"
 )
@@ -29,7 +28,6 @@ func init() {
 	engine.AddRace("C19", raceC19)
 	engine.AddRace("C17", raceC17)
 	engine.AddRace("C08", raceC08)
-	engine.AddRace("C10", raceC10)
 }
 
 func raceDone(r *engine.Result, ops int64, what string) {
@@ -230,40 +228,5 @@ func raceC08(tier string, r *engine.Result) {
 		}
 		wg.Wait()
 		raceDone(r, ops, "fragmentation: 4 goroutines feeding the 4 fragments of the same 8 datagrams in rotated orders (duplicates race completion)")
-	}
-}
-
-func raceC10(tier string, r *engine.Result) {
-	for round := 0; round < rounds(tier, 10, 100); round++ {
-		pm := ports.NewPortManager()
-		var wg sync.WaitGroup
-		var ops int64
-		var held [4]int32 // per tuple: number of goroutines currently holding it (must stay <= 1)
-		for g := 0; g < 4; g++ {
-			wg.Add(1)
-			go func(g int) {
-				defer wg.Done()
-				for i := 0; i < 300; i++ {
-					u := (i + g) % len(c10U)
-					tp := c10U[u]
-					if _, err := pm.ReservePort(c10Nets[tp.n], c10Trans[tp.t], c10Addrs[tp.a], tp.port); err == nil {
-						if atomic.AddInt32(&held[u], 1) > 1 {
-							panic("verif: the same reservation was granted to two goroutines at once")
-						}
-						pm.IsPortAvailable(c10Nets[tp.n], c10Trans[tp.t], c10Addrs[tp.a], tp.port)
-						atomic.AddInt32(&held[u], -1)
-						pm.ReleasePort(c10Nets[tp.n], c10Trans[tp.t], c10Addrs[tp.a], tp.port)
-					}
-					if i%7 == 0 {
-						if p, err := pm.ReservePort(c10Nets[0], c10Trans[0], c10Addrs[0], 0); err == nil {
-							pm.ReleasePort(c10Nets[0], c10Trans[0], c10Addrs[0], p)
-						}
-					}
-					atomic.AddInt64(&ops, 3)
-				}
-			}(g)
-		}
-		wg.Wait()
-		raceDone(r, ops, "ports: 4 goroutines reserving / querying / releasing the 4 mutually conflicting tuples and ephemeral ports")
 	}
 }
